@@ -448,6 +448,7 @@ def run(ctx, only_entry=False):
                  16: ["0", "b", "B", "0b", "0B", "0b1", "0b12", "00b1", "b1", "0b0", "0b01", "7f", "fF", "ff", "0x1"[2:], "ffff", "0b00", "abcd", "0100"],
                  10: ["0", "7", "42", "255", "007", "256", "65535", "010", "100"]}
     bad_num = []
+    bad_num_by = {2: [], 16: [], 10: []}
     nnum = 0
     for (fn_, rule_) in sorted(x for x in done if x[1] is not None):
         body_ = p.bodies.get(fn_)
@@ -500,9 +501,14 @@ def run(ctx, only_entry=False):
                         _ints(rvn)
                         if leaves != [want_v]:
                             bad_num.append("%s reads %r as %s (written value %d)" % (fn_.rsplit("::", 1)[-1], txt, leaves if leaves else D.short(rvn), want_v))
+                            bad_num_by[radix].append(bad_num[-1])
     chk.ob("numeric/value", not bad_num, "a numeral in any base is read as the number written (prefix stripped once, digits in the "
            "numeral's own radix)", "parser/implementation/mod.rs", "; ".join(sorted(set(bad_num))[:4]) or "%d (consumer, numeral) cases" % nnum,
            "A4 of the numeral consumers on concrete numeral texts")
+    for radix_, nm_ in ((2, "bin"), (16, "hex"), (10, "dec")):
+        chk.ob("numeric/value/%s" % nm_, not bad_num_by[radix_], "a %s numeral is read as the number written" % nm_,
+               "parser/implementation/mod.rs", "; ".join(sorted(set(bad_num_by[radix_]))[:4]) or "see numeric/value",
+               "A4 of the numeral consumers on concrete numeral texts")
     chk.floor("numeral cases", nnum, 150)
     chk.ob("ast/no-operand-dropped", not dropped,
            "every operand child of an instruction rule is handed to a sub-parser and stored in the AST", "parser/implementation/mod.rs",
@@ -763,6 +769,13 @@ def run(ctx, only_entry=False):
            cpar.body.loc(), "; ".join(bad_c[:3]) or "%d comment texts" % len(fam),
            "A4 of parse_comment on concrete comment texts")
     chk.floor("comment texts", len(fam), 341)
+    # the accepted language is the grammar's: nothing in the workspace arms pest's process-wide call limit (with a limit a long
+    # but legal text is rejected in whatever process set it - the library's parser has no say in that)
+    cgp = mirutil.call_graph(p)
+    limiters = sorted(f_ for f_, cs_ in cgp.items() if any(str(c_).startswith("pest::") and "set_call_limit" in str(c_) for c_ in cs_))
+    chk.ob("grammar/no-call-limit", not limiters,
+           "no function of the two crates sets pest's global call limit, so acceptance does not depend on the length of the text",
+           "workspace call graph", "callers of pest::set_call_limit: %s" % limiters, "who-may-call over the resolved call graph")
     chk.assume("pest 2.5.7 implements the PEG semantics modelled by sa/grammar.py and never panics itself")
     chk.sample({"consumer": "parse_instruction_add", "rule": "add", "children": ["sep_ip", "register", "sep_pp", "register"]})
 
